@@ -194,6 +194,7 @@ def pmap(fn, arglist, jobs=None):
     _TASK = (fn, arglist)
     results = [None] * len(arglist)
     running = {}                       # pid -> (index, read fd)
+    started = {}
     nxt = 0
     sys.stdout.flush()
     sys.stderr.flush()
@@ -229,8 +230,17 @@ def pmap(fn, arglist, jobs=None):
                     os._exit(code)
             os.close(wfd)
             running[pid] = (nxt, rfd)
+            started[pid] = time.time()
             nxt += 1
         # drain pipes of children that have produced output (a result larger than the pipe buffer would block the child)
+        # hard limit per worker: the budgets inside the executor are checked between IR instructions; a worker stuck inside
+        # one model call (or in a native library) is killed here and its harness reported as an error, never waited for
+        now = time.time()
+        for pid in [p for p, t0 in started.items() if p in running and now - t0 > HARD_TASK_S]:
+            try:
+                os.kill(pid, 9)
+            except OSError:
+                pass
         fds = {rfd: pid for pid, (i, rfd) in running.items()}
         ready, _, _ = select.select(list(fds), [], [], 0.5)
         for rfd in ready:
@@ -250,9 +260,10 @@ def pmap(fn, arglist, jobs=None):
                 results[i] = pickle.loads(data)
             except Exception:
                 how = 'killed by signal %d' % os.WTERMSIG(status) if os.WIFSIGNALED(status) else 'exit status %d' % os.WEXITSTATUS(status)
-                results[i] = dict(status='error', error='worker process died (%s; out of memory?) before reporting a result' % how,
+                results[i] = dict(status='error', error='worker process died (%s; out of memory, or killed at the hard limit of %d s per harness) before reporting a result' % (how, HARD_TASK_S),
                                   task=repr(arglist[i])[:200])
     return results
 
 
 _PARTIAL = {}
+HARD_TASK_S = int(os.environ.get('VERIF_TASK_HARD_S', '1800'))
